@@ -53,7 +53,12 @@ type HTTPFacts struct {
 	DBCalls int
 	// CacheHit: the same bytes were already answered 200 on this path (swap / mint)
 	CacheHit bool
+	// Leak: the response carries the text of an error the harness injected into a storage or Lightning call
+	Leak bool
 }
+
+// InjectedMarker is part of the text of every error the harness injects (sched.ErrInjected).
+const InjectedMarker = "verif: injected"
 
 type httpAPI struct{ w *World }
 
@@ -91,7 +96,7 @@ func (h *httpAPI) do(method, path string, body any, shape func(map[string]any) s
 	hit := w.okReqs[method+path+reqb]
 	status, resp, pan, msg := w.HTTPDo(method, path, reqb)
 	calls := len(w.DB.TakeLog())
-	f := &HTTPFacts{Used: true, Status: status, Req: reqb, Resp: resp, Method: method, Path: path, DBCalls: calls, Shape: "ok", CacheHit: hit}
+	f := &HTTPFacts{Used: true, Status: status, Req: reqb, Resp: resp, Method: method, Path: path, DBCalls: calls, Shape: "ok", CacheHit: hit, Leak: strings.Contains(resp, InjectedMarker)}
 	if status == 200 && !pan && (path == "/v1/swap" || path == "/v1/mint/bolt11") {
 		if w.okReqs == nil {
 			w.okReqs = map[string]bool{}
